@@ -1,16 +1,20 @@
 --------------------------- MODULE HeaderMapMC ---------------------------
-(* Exhaustive model check of HeaderMap for one header kind / normalisation   *)
-(* mode: Inv in every reachable state (h and cookies bounded by MaxH), the    *)
-(* frame condition FrameProp on every transition.                            *)
+(* Exhaustive model check of HeaderMap: both header kinds, normalisation on   *)
+(* and off, three groups of names (one initial state per configuration):      *)
+(* Inv in every reachable state (h and cookies bounded by MaxH), the frame    *)
+(* condition FrameProp on every transition.                                   *)
 EXTENDS HeaderMap
 
 \* PART 1: ordinary multi-valued names in two spellings next to the names whose
 \* operations delete or rewrite OTHER stored fields (Connection, Content-Length,
-\* Transfer-Encoding); PART 2: the remaining special names, cookies and trailers.
-PART == @@PART@@
-MCSpellings ==
-  IF PART = 1
-  THEN {"X-A", "x-a", "X-B", "Connection", IF Norm THEN "content-length" ELSE "Content-Length", "Transfer-Encoding"}
-  ELSE {"X-A", "Content-Type", "Trailer", "Host", "Server", "Cookie", "Set-Cookie", "X-B"}
-MCTyped == IF PART = 1 THEN {"framing"} ELSE {"cookie", "slot"}
+\* Transfer-Encoding); PART 2: single-valued slots; PART 3: cookies and trailers.
+PartSp(part, kind, norm) ==
+  CASE part = 1 -> {"X-A", "x-a", "X-B", "Connection", IF norm THEN "content-length" ELSE "Content-Length",
+                    "Transfer-Encoding"}
+    [] part = 2 -> {"X-B", "Content-Type", "Host", "Server"}
+    [] part = 3 -> {"X-A", "X-B", "Trailer", IF kind = "req" THEN "Cookie" ELSE "Set-Cookie"}
+PartTyped(part) == CASE part = 1 -> {"framing"} [] part = 2 -> {"slot"} [] part = 3 -> {"cookie"}
+MCConfigs == { [kind |-> k, norm |-> n, sp |-> PartSp(p, k, n), typed |-> PartTyped(p),
+                ops |-> {"Set", "Add", "Del"}, ov |-> {"v1", "v2", ""}] :
+               k \in {"req", "resp"}, n \in BOOLEAN, p \in 1..3 }
 =============================================================================
